@@ -3663,12 +3663,12 @@ void RemoveDefSymbol(char* Name) {
         return;
     }
 
-    if (!strcmp(FirstDefSymbol->SymName, Name)) {
+    if (!as_strcasecmp(FirstDefSymbol->SymName, Name)) {
         Save           = FirstDefSymbol;
         FirstDefSymbol = FirstDefSymbol->Next;
     } else {
         Lauf = FirstDefSymbol;
-        while ((Lauf->Next) && (strcmp(Lauf->Next->SymName, Name))) {
+        while ((Lauf->Next) && (as_strcasecmp(Lauf->Next->SymName, Name))) {
             Lauf = Lauf->Next;
         }
         if (!Lauf->Next) {
@@ -3710,7 +3710,8 @@ TempResult const* FindDefSymbol(char const* pName) {
     PDefSymbol pRun;
 
     for (pRun = FirstDefSymbol; pRun; pRun = pRun->Next) {
-        if (!strcmp(pName, pRun->SymName)) {
+        if (CaseSensitive ? !strcmp(pName, pRun->SymName)
+                          : !as_strcasecmp(pName, pRun->SymName)) {
             return &pRun->Wert;
         }
     }
